@@ -8,6 +8,7 @@ pub mod jitter_env;
 pub mod inventory;
 pub mod linear;
 pub mod ops;
+pub mod rare;
 pub mod replay;
 pub mod stream;
 pub mod subject;
